@@ -59,6 +59,8 @@ def configs(quick):
     # a run shorter than the save interval (only the first and the last state are kept): the per-step record buffer is
     # never filled, so nothing may be read from its unused tail
     c.append(dict(name="shorter_than_save_interval", dev="bar", current=2.0, adaptive=True, T=0.2, save_every=1000))
+    # a critical temperature that changes in time (re-evaluated at every step), no thermalisation: frame 0 included
+    c.append(dict(name="dynamic_epsilon", dev="bar", current=1.5, dyn_eps=True, adaptive=True, T=0.12))
     if not quick:
         c += [dict(name="timedep_current_adaptive", dev="bar_hole", timedep_current=True, adaptive=True, T=0.2),
               dict(name="screening_fixed", dev="union", lam=0.5, screening=True, adaptive=False, T=0.06),
